@@ -165,6 +165,9 @@ func (h *History) Layout() {
 
 // file returns the index of the named file.
 func (h *History) file(name string) int {
+	if name == "" && len(h.Files) > 0 {
+		return 0 // an empty name asks for the master's first binlog
+	}
 	for i, f := range h.Files {
 		if f.Name == name {
 			return i
